@@ -371,6 +371,17 @@ func Ite(c, a, b *Term) *Term {
 
 // allocInfo recognises (+ base k) terms produced by fresh allocations.
 func allocInfo(t *Term) (base string, k int64, ok bool) {
+	base, k, ok = offsetInfo(t)
+	if ok && !strings.HasPrefix(base, "heaptop") {
+		// an integer such as rangeindex + 1 has the same shape as an allocation address but is not one:
+		// it may well be zero (this once made `i == 0` in a range loop a dead branch)
+		return "", 0, false
+	}
+	return
+}
+
+// offsetInfo: a term of the shape (constant + literal).
+func offsetInfo(t *Term) (base string, k int64, ok bool) {
 	if t.Op == "+" && len(t.Args) == 2 && t.Args[1].IsInt() && (t.Args[0].Op == "const" || t.Args[0].Op == "def") {
 		return t.Args[0].Name, t.Args[1].Int.Int64(), true
 	}
@@ -391,11 +402,13 @@ func knownDistinct(a, b *Term) bool {
 	if a.Op == "bool" && b.Op == "bool" {
 		return a.Name != b.Name
 	}
+	if oa, ia, ok1 := offsetInfo(a); ok1 {
+		if ob, ib, ok2 := offsetInfo(b); ok2 && oa == ob {
+			return ia != ib // x + i vs x + j
+		}
+	}
 	ba, ka, oka := allocInfo(a)
 	bb, kb, okb := allocInfo(b)
-	if oka && okb && ba == bb {
-		return ka != kb
-	}
 	if oka && okb && ka >= 1 && kb >= 1 && strings.HasPrefix(ba, "heaptop") && strings.HasPrefix(bb, "heaptop") {
 		// different frontiers on one path: the later frontier lies above every earlier allocation
 		return true
